@@ -115,7 +115,7 @@ type seqWrap struct {
 	// forms: the container header forms of the format (and the forms of the enclosing
 	// nodes, one at a time) are varied; otherwise the shortest encoding only
 	forms bool
-	maxN  int               // applied to the lengths up to maxN
+	maxN  int              // applied to the lengths up to maxN
 	fn    func(x, y *V) *V // y: a second container of the same kind, one element longer
 }
 
